@@ -5,6 +5,7 @@ use crate::mv::*;
 use crate::observe::guarded;
 use crate::rng::Rng;
 use crate::runner::*;
+use crate::setops::on_small_stack;
 use nodejs_semver::Version;
 use serde_json::json;
 use std::cmp::Ordering;
@@ -282,6 +283,63 @@ pub fn run(ctx: &mut Ctx) {
                     ctx.violation("sort/minmax", w, "Iterator::max/min differ from the model extremes".into());
                 } else if !found {
                     ctx.violation("sort/binary_search", w, "binary_search cannot find an element of the sorted list".into());
+                }
+            }
+        }
+    }
+    // identifier lists of any length: thousands of identifiers (only reachable through the
+    // public fields or a range bound; Version::parse stops at MAX_LENGTH), compared on a 256 KiB
+    // stack so that recursion following the list length cannot hide behind a large stack
+    ctx.stratum("L-long-identifier-lists", true);
+    for &n in &[300usize, 3_000, 40_000] {
+        for shape in 0..6usize {
+            if !ctx.take() {
+                continue;
+            }
+            ctx.begin(|| format!("C04 long identifier lists n={} shape={}", n, shape));
+            let atom = |k: usize| -> String {
+                match k % 4 {
+                    0 => "a".to_string(),
+                    1 => (k % 10).to_string(),
+                    2 => "rc".to_string(),
+                    _ => "0".to_string(),
+                }
+            };
+            let mut x = MV::new(1, 2, 3);
+            x.pre = (0..n).map(atom).collect();
+            let mut y = x.clone();
+            match shape {
+                0 => {}                                  // equal lists
+                1 => *y.pre.last_mut().unwrap() = "zz".into(), // differ at the very end
+                2 => {
+                    y.pre.pop(); // strict prefix
+                }
+                3 => y.pre[n / 2] = "-".into(),           // differ in the middle
+                4 => y.pre[0] = "b".into(),               // differ at once
+                _ => y.pre.push("0".into()),              // one longer
+            }
+            let want = cmp_mv(&x, &y);
+            let (cx, cy) = (x.to_crate(), y.to_crate());
+            ctx.eval(1);
+            ctx.class(&format!("long-ids:{}:{}", n, shape));
+            if want != Ordering::Equal {
+                ctx.nontrivial(&format!("long-ids {} {}", n, shape));
+            }
+            let got = on_small_stack(|| {
+                guarded(|| {
+                    let mut v = vec![cy.clone(), cx.clone(), cy.clone()];
+                    v.sort();
+                    (cx.cmp(&cy), cy.cmp(&cx), cx == cy, hash_default(&cx) == hash_default(&cy), cx.clone().max(cy.clone()) == if want == Ordering::Greater { cx.clone() } else { cy.clone() }, v[0].cmp(&v[2]) != Ordering::Greater)
+                })
+            });
+            let w = json!({"identifiers": n, "shape": shape});
+            match got {
+                None => ctx.inconclusive("small-stack thread ended without a result"),
+                Some(Err(p)) => ctx.violation(&format!("panic/{}", p.site), w, p.message),
+                Some(Ok((c1, c2, eq, heq, mx, sorted))) => {
+                    if c1 != want || c2 != want.reverse() || eq != (want == Ordering::Equal) || (eq && !heq) || !mx || !sorted {
+                        ctx.violation(&format!("precedence/long-lists/shape{}", shape), w, format!("{} identifiers: cmp={:?} reverse={:?} eq={} hash-equal={} max-ok={} sorted-ok={}, SemVer order says {:?}", n, c1, c2, eq, heq, mx, sorted, want));
+                    }
                 }
             }
         }
